@@ -236,6 +236,7 @@ func c08System(base string) *explore.System {
 		txOp("CreateTopic(A,a.b-c_D)", s(A), aoltypes.NewMsgCreateTopic("a.b-c_D", "", A.Bech)),
 		txOp("CreateDenom(d/x:y,A)", s(A), pnfttypes.NewMsgCreateDenomRequest("d/x:y", "S4", "", "", "", "", A.Bech, "")),
 		// required text fields left empty: if the chain stores such a denom, its own genesis validation must accept it again
+		txOp("Mint(dd,t,B)", s(B), pnfttypes.NewMsgMintPNFTRequest("dd", "t", "same token id as (d,t)", "", "", "", B.Bech, "")),
 		txOp("CreateDenom(nosym,A,symbol=empty)", s(A), pnfttypes.NewMsgCreateDenomRequest("nosym", "", "has a name", "", "", "", A.Bech, "")),
 		txOp("CreateDenom(noname,A,name=empty)", s(A), pnfttypes.NewMsgCreateDenomRequest("noname", "SYM", "", "", "", "", A.Bech, "")),
 		txOp("Mint(d,t/1,A)", s(A), pnfttypes.NewMsgMintPNFTRequest("d", "t/1", "", "", "", "", A.Bech, "")),
